@@ -3,7 +3,7 @@
 From Coq Require Import ZArith List Bool.
 From JL.std Require Import GoBase GoFloat GoStrconv GoTime GoVal.
 From JL.gen Require Import CastGen ConvGen.
-From JL.model Require Import CastRun Row.
+From JL.model Require Import CastRun Row MapTo.
 Import ListNotations.
 Open Scope Z_scope.
 
@@ -46,12 +46,14 @@ Section Run.
   Inductive rq :=
   | QHas (k : str) | QGet (k : str) | QGetAtIndex (i : Z) | QGetValue (k : str) | QGetValueAtIndex (i : Z)
   | QLen | QIter | QGetAtPath (p : str) | QGetValueAtPath (p : str) | QFind (p : str)
-  | QTyped (sample zero : gval) (k : str) | QRaw | QExport.
+  | QTyped (sample zero : gval) (k : str) | QRaw | QExport
+  | QMapTo (t : mtarget).
 
   Inductive rout :=
   | ABool (b : bool) | AZ (z : Z) | ARv (o : option rv) | ACell (o : option cell)
   | ACells (o : option (list cell)) | AG (g : gval) | AIter (l : list (str * rv))
-  | AErr (e : sentinel) | APanic | AFuel.
+  | AErr (e : sentinel) | APanic | AFuel
+  | AFields (l : list gval).    (* MapTo on a zero struct: the exported fields afterwards (VNil: not shown) *)
 
   Definition out_of {A} (f : A -> rout) (x : res A) : rout :=
     match x with Ok a => f a | Err e => AErr e | Panic => APanic | Fuel => AFuel end.
@@ -71,6 +73,7 @@ Section Run.
     | QTyped s z k => out_of AG (typed_get O FUEL s z k r)
     | QRaw => out_of (fun v => ARv (Some v)) (row_raw FUEL r)
     | QExport => out_of (fun v => ARv (Some v)) (cell_export O FUEL (CRow r))
+    | QMapTo t => out_of AFields (bind (map_to O FUEL r t) (fun l => Ok (fields_after t l)))
     end.
 End Run.
 
@@ -171,6 +174,7 @@ Definition rout_eqb (a b : rout) : bool :=
   | AIter x, AIter y => list_eqb (fun p q => str_eqb (fst p) (fst q) && rv_eqb (snd p) (snd q)) x y
   | AErr x, AErr y => sentinel_eqb x y
   | APanic, APanic => true
+  | AFields x, AFields y => list_eqb gval_eqb x y
   | _, _ => false
   end.
 
